@@ -47,6 +47,14 @@ def jobs(tier, seed):
             for s, e in [((0, 0), (r - 1, c - 1)), ((r - 1, c - 1), (0, 0)), ((0, c - 1), (r - 1, 0)), ((1, 1), (r - 1, c - 1)),
                          ((0, 0), (1, 1)), ((r - 1, 0), (0, c - 1))]:
                 out.append(dict(h="astar", r=r, c=c, s=list(s), e=list(e), max_seconds=3000))
+    if tier != "quick":
+        # a wide grid (cols >= rows + 6): one far-apart endpoint pair on 2x8, the 2^22 mazes split over 32 instances by five bits next to the start
+        import itertools as _it
+
+        names = ["c_0_0_7", "c_1_0_6", "c_1_1_6", "c_0_0_6", "c_1_0_5"]
+        for vals in _it.product([False, True], repeat=len(names)):
+            out.append(dict(h="astar", r=2, c=8, s=[0, 7], e=[1, 0], fix=dict(zip(names, vals)), max_seconds=3300,
+                            label="astar:2x8:(0,7)->(1,0):" + "".join("1" if v else "0" for v in vals)))
     # solved-maze constructor path (from_targeted_lattice_maze)
     for r, c in [(2, 2), (2, 3)] + ([(3, 3)] if tier != "quick" else []):
         for s, e in ([((0, 0), (r - 1, c - 1)), ((r - 1, c - 1), (0, 1))] if tier == "quick" else _pairs(r, c, "all")):
@@ -85,6 +93,8 @@ def _run_astar(job):
         cl, lat = sym_connection_list(r, c)
         if pinned:
             pin(pinned)
+        if job.get("fix"):
+            pin(job["fix"])  # this instance covers the mazes with these bits; sibling instances cover the other values
         m = LatticeMaze(connection_list=cl)
         try:
             p = m.find_shortest_path(s, e)
@@ -212,7 +222,7 @@ META = dict(
                "SolvedMaze.__init__"],
     bounds=dict(
         quick="all connection structures (every bit symbolic) on all grids r x c with r*c <= 6 and all ordered (start,end) pairs; 3x3 with 12 pairs",
-        thorough="as quick, plus 3x3 all 81 pairs, 3x4 and 4x3 with 6 pairs each, solve_targeted on 3x3 all pairs",
+        thorough="as quick, plus 3x3 all 81 pairs, 3x4 and 4x3 with 6 pairs each, 2x8 (all 2^22 mazes) for the pair (0,7)->(1,0), solve_targeted on 3x3 all pairs",
     ),
     degenerate={},
     stubs=stubs_description(),
